@@ -92,6 +92,7 @@ fn run_lines() {
             "schema" => c15::schema(&mut t),
             "authz" => c17::authz(&mut t),
             "backup" => c19::backup(&mut t),
+            "walread" => c19::walread(&mut t),
             "pool" => c20::pool(&mut t),
             "mix" => c20::mix(&mut t),
             "ro" => c17::ro(&mut t),
